@@ -45,7 +45,10 @@ RULE = (
     "blocks with up to 4 free variables and plurals, filter/test chains); 'dense' templates (3-8 distinct names stored "
     "in one frame by set / tuple set / block set / import / from-import / macro / loop target inside toplevel / for / "
     "macro / block / with / if-branches, followed by a construct that dumps the frame's stores: include / import with "
-    "context, scoped block, call block; chains of 3-8 distinct filters and tests; trans blocks with 3-8 variables); "
+    "context, scoped block, call block; chains of 3-8 distinct filters and tests; trans blocks with 3-8 variables; filters "
+    "applied to literals, which the optimizer evaluates so that their result text lands in the source: urlize with rel / "
+    "nofollow / target / extra_schemes on texts with URLs, xmlattr / tojson / dictsort / groupby / unique / items / string / "
+    "list / sort / pprint ... on literal dicts and lists); "
     "G-expr expression trees in output / if / set positions; and srcgen grammar sources when that generator exists -- "
     "each compiled twice in 7 fresh processes (PYTHONHASHSEED 0,1,2,3,4,5,12345) under a drawn environment "
     "(extensions i18n/do/loopcontrols, sync/async, autoescape, old/new style gettext). Non-trivial = the template "
@@ -246,6 +249,11 @@ def classify(case):
             nt = True
         if "pluralize" in m.group(2):
             labels.add("trans_plural")
+    for n in ast.find_all(nodes.Filter):
+        if isinstance(n.node, (nodes.Const, nodes.List, nodes.Dict, nodes.Tuple)):
+            labels.add("filter_on_literal")
+            if n.name == "urlize" and any(kw.key in ("rel", "nofollow") for kw in n.kwargs):
+                labels.add("urlize_rel_on_literal")
     if any(isinstance(n.target, nodes.Tuple) for n in ast.find_all((nodes.Assign, nodes.For))):
         labels.add("tuple_unpacking")
     if next(ast.find_all((nodes.Import, nodes.FromImport)), None) is not None:
@@ -607,6 +615,89 @@ class _Dense:
             s += "".join("{{ %s|%s }}" % (self.pick(ns), f) for f in fs[3:])
         return s + "".join("{%% if %s is %s %%}y{%% endif %%}" % (self.pick(ns), t) for t in ts)
 
+    # -- filters applied to literals: evaluated by the optimizer, their *result text* lands in the generated source
+    _WORDS = ("external", "author", "nofollow", "noopener", "noreferrer", "me", "tag", "help", "ugc", "sponsored", "alpha",
+              "beta", "k2", "Zed", "id", "class", "data-x", "title", "b", "a", "c", "x y", "é")
+    _URL_TEXTS = ("see http://example.com/a?b=1&c=2 now", "www.example.org and https://x.y/z", "mail me@example.com or ftp://h/p",
+                  "go to http://a.b/c, http://a.b/d.", "<b>http://e.f</b> tel:123 x.org")
+
+    def words(self, lo, hi):
+        idx = self.draw(st.lists(st.integers(0, len(self._WORDS) - 1), min_size=lo, max_size=hi, unique=True))
+        return [self._WORDS[j] for j in idx]
+
+    def lit_scalar(self):
+        return self.pick(("1", "2", "0", "'v'", "'a b'", "none", "true", "[1, 2]", "'<i>'", "3.5", "-1"))
+
+    def lit_dict(self):
+        ks = self.words(2, 6)
+        return "{%s}" % ", ".join("'%s': %s" % (k, self.lit_scalar()) for k in ks)
+
+    def lit_list(self):
+        k = self.i(0, 2)
+        if k == 0:
+            return "[%s]" % ", ".join("'%s'" % w for w in self.words(2, 6) + self.words(0, 2))
+        if k == 1:
+            return "[%s]" % ", ".join(str(self.i(0, 9)) for _ in range(self.i(2, 7)))
+        ks = self.words(2, 3)
+        return "[%s]" % ", ".join("{%s}" % ", ".join("'%s': %s" % (q, self.pick(("1", "2", "'u'", "'w'"))) for q in ks) for _ in range(self.i(2, 4)))
+
+    def folded_expr(self):
+        k = self.pick(("urlize", "urlize", "urlize", "xmlattr", "tojson", "dictsort", "groupby", "unique", "items", "string", "list",
+                       "misc", "misc"))
+        if k == "urlize":
+            args = []
+            if self.i(0, 3):
+                args.append("rel='%s'" % " ".join(w for w in self.words(1, 4) if " " not in w))
+            if self.i(0, 1):
+                args.append("nofollow=%s" % self.pick(("true", "false")))
+            if self.i(0, 2) == 0:
+                args.append("target='%s'" % self.pick(("_blank", "_top")))
+            if self.i(0, 2) == 0:
+                args.append("extra_schemes=[%s]" % ", ".join("'%s'" % x for x in self.pick((("tel:",), ("ftp:", "tel:"), ("x-a:", "ftp:", "tel:")))))
+            if self.i(0, 3) == 0:
+                args.insert(0, "trim_url_limit=%d" % self.i(5, 20))
+            return "'%s'|urlize%s" % (self.pick(self._URL_TEXTS), "(%s)" % ", ".join(args) if args else "")
+        if k == "xmlattr":
+            return "%s|xmlattr%s" % (self.lit_dict(), self.pick(("", "(false)")))
+        if k == "tojson":
+            return "%s|tojson%s" % (self.pick((self.lit_dict(), self.lit_list())), self.pick(("", "(indent=2)")))
+        if k == "dictsort":
+            return "%s|dictsort%s|list%s" % (self.lit_dict(), self.pick(("", "(true)", "(by='value')", "(reverse=true)", "(false, 'key', true)")),
+                                            self.pick(("", "|string", "|length")))
+        if k == "groupby":
+            ks = self.words(2, 3)
+            lst = "[%s]" % ", ".join("{%s}" % ", ".join("'%s': %s" % (q, self.pick(("1", "2", "'u'"))) for q in ks) for _ in range(self.i(2, 4)))
+            return "%s|groupby('%s')|list%s" % (lst, ks[0], self.pick(("", "|string", "|length")))
+        if k == "unique":
+            return "%s|unique%s|list%s" % (self.lit_list(), self.pick(("", "(true)", "(case_sensitive=true)")), self.pick(("", "|string", "|join(' ')")))
+        if k == "items":
+            return "%s|items|list%s" % (self.lit_dict(), self.pick(("", "|string", "|sort|string")))
+        if k == "string":
+            return "%s|string" % self.pick((self.lit_dict(), self.lit_list(), "(%s, %s)" % (self.lit_dict(), self.lit_list())))
+        if k == "list":
+            return "%s|list%s" % (self.pick((self.lit_dict(), self.lit_list(), "'%s'" % " ".join(self.words(1, 3)))), self.pick(("", "|string", "|sort", "|join(',')")))
+        f = self.pick(("sort|join(' ')", "sort(reverse=true)|string", "pprint", "length", "max", "min", "first", "last", "batch(2)|list|string",
+                       "slice(2)|list|string", "join(', ')", "reverse|list|string", "map('string')|list", "select|list", "random", "sum",
+                       "urlencode", "string|upper", "string|title", "string|wordwrap(7)", "string|center(40)", "string|truncate(12)",
+                       "string|replace('a', 'A')", "string|e", "string|striptags", "string|indent(2)", "string|wordcount",
+                       "string|filesizeformat", "string|forceescape", "string|trim", "count", "tojson|safe", "default('d')"))
+        return "%s|%s" % (self.pick((self.lit_dict(), self.lit_list())), f)
+
+    def folded(self, ns):
+        out = []
+        for _ in range(self.i(1, 4)):
+            e = self.folded_expr()
+            k = self.i(0, 5)
+            if k <= 2:
+                out.append("{{ %s }}" % e)
+            elif k == 3:
+                out.append("{%% set %s = %s %%}" % (self.pick(ns), e))
+            elif k == 4:
+                out.append("{%% if %s %%}%s{%% endif %%}" % (e, self.pick(ns)))
+            else:
+                out.append("{{ (%s) ~ %s }}" % (e, self.pick((self.pick(ns), "'|'"))))
+        return "".join(out)
+
     def trans(self, ns):
         k = self.i(3, min(8, len(ns)))
         body = ns[:k]
@@ -628,9 +719,11 @@ def dense_sources(draw):
     parts = []
     need = []
     for _ in range(g.i(1, 3)):
-        k = g.pick(("frame", "frame", "frame", "chains", "trans"))
+        k = g.pick(("frame", "frame", "frame", "chains", "trans", "folded", "folded"))
         if k == "frame":
             parts.append(g.frame(ns))
+        elif k == "folded":
+            parts.append(g.folded(ns))
         elif k == "chains":
             parts.append(g.chains(ns))
         else:
@@ -741,7 +834,7 @@ def run_shard(spec, ctx):
 FLOORS = {
     "stores_3plus_in_frame": 0.15, "stores_6plus_in_frame": 0.02, "filters_tests_3plus": 0.08, "trans_free_3plus": 0.02,
     "tuple_unpacking": 0.08, "imports": 0.08, "macro_special_params": 0.05, "scoped_block": 0.03, "branch_stores_2plus": 0.03,
-    "env_async": 0.08, "env_i18n_newstyle": 0.05, "env_i18n_oldstyle": 0.05, "compiles": 0.7,
+    "filter_on_literal": 0.05, "urlize_rel_on_literal": 0.005, "env_async": 0.08, "env_i18n_newstyle": 0.05, "env_i18n_oldstyle": 0.05, "compiles": 0.7,
 }
 
 
